@@ -34,7 +34,8 @@
 (*     operations (delete, insert after an element).                       *)
 (*   gh[c] : per cursor - the list when it started, the elements touched   *)
 (*     since, the boxes/elements it yielded, the boxes that were inserted  *)
-(*     behind its position.                                                *)
+(*     behind its position, and (gapNb) the number of boxes that existed   *)
+(*     when the box it is parked on was erased (0 while that box is live). *)
 (* The whole state is ONE record so that the model checker, the replay     *)
 (* emission and the trace validator share the pure operator Apply(s, a).   *)
 (***************************************************************************)
@@ -56,19 +57,25 @@ LsPos(q, x)      == LsPosFrom(q, x, 1)                     \* index of x in q, 0
 LsIn(q, x)       == \E i \in DOMAIN q : q[i] = x
 LsInsAt(q, i, x) == SubSeq(q, 1, i) \o <<x>> \o SubSeq(q, i + 1, Len(q))   \* x becomes element i+1
 LsDel(q, x)      == SelectSeq(q, LAMBDA y : y # x)
-LsRev(q)         == [i \in 1..Len(q) |-> q[Len(q) + 1 - i]]
+LsRev(q)         == [i \in 1..Len(q) |-> q[Len(q) + 1 - i]] \o <<>>    \* (\o forces a tuple, see CurTuple)
 LsSet(q)         == {q[i] : i \in DOMAIN q}
 
 \* ---- state ------------------------------------------------------------------------------
 GhostInit == [started |-> FALSE, start |-> <<>>, nb0 |-> 0, nb1 |-> 0, touched |-> {},
-              ybox |-> <<>>, yielded |-> <<>>, insBefore |-> {}]
+              ybox |-> <<>>, yielded |-> <<>>, insBefore |-> {}, gapNb |-> 0]
+
+\* Functions over the cursors are built as tuples and rebuilt as tuples: TLC keeps
+\* [c \in Cur |-> ...] as an unevaluated lambda and cannot write such a value to its disk queue when the
+\* variable part is outside the VIEW.
+ASSUME NCur \in 1..3
+CurTuple(F(_)) == IF NCur = 1 THEN <<F(1)>> ELSE IF NCur = 2 THEN <<F(1), F(2)>> ELSE <<F(1), F(2), F(3)>>
 
 EmptyState(dirs) ==
   [val |-> [b \in Box |-> None], nxt |-> [b \in Box |-> b], prv |-> [b \in Box |-> b],
    nb |-> 0, boxOf |-> [e \in Elem |-> 0], len |-> 0,
-   cur |-> [c \in Cur |-> [ph |-> "new", box |-> 0, dir |-> dirs[c]]],
+   cur |-> CurTuple(LAMBDA c : [ph |-> "new", box |-> 0, dir |-> dirs[c]]),
    ordF |-> <<>>, ordB |-> <<>>, abs |-> <<>>, bad |-> FALSE,
-   gh |-> [c \in Cur |-> GhostInit]]
+   gh |-> CurTuple(LAMBDA c : GhostInit)]
 
 Link(s, b, d) == IF d = "f" THEN s.nxt[b] ELSE s.prv[b]
 
@@ -90,7 +97,7 @@ Chain(s, b, d, fuel) ==
 
 LiveF(s) == Chain(s, 0, "f", MaxBox + 1)
 LiveB(s) == Chain(s, 0, "b", MaxBox + 1)
-ValsOf(s, q) == [i \in DOMAIN q |-> IF q[i] < 0 THEN -1 ELSE s.val[q[i]]]
+ValsOf(s, q) == [i \in DOMAIN q |-> IF q[i] < 0 THEN -1 ELSE s.val[q[i]]] \o <<>>
 LiveSeq(s)  == ValsOf(s, LiveF(s))        \* list(x)
 LiveSeqB(s) == ValsOf(s, LiveB(s))        \* list(reversed(x))
 
@@ -104,9 +111,9 @@ GetItem(s, i) ==
 Active(s, c) == s.cur[c].ph = "parked"
 
 Touch(s, e) ==
-  [s EXCEPT !.gh = [c \in Cur |-> IF Active(s, c)
-                                   THEN [s.gh[c] EXCEPT !.touched = @ \cup {e}]
-                                   ELSE s.gh[c]]]
+  [s EXCEPT !.gh = CurTuple(LAMBDA c : IF Active(s, c)
+                                                    THEN [s.gh[c] EXCEPT !.touched = @ \cup {e}]
+                                                    ELSE s.gh[c])]
 
 \* _LinkBox.erase(): relink the neighbours, detach the value, keep the box's own links
 EraseBox(s, b) ==
@@ -116,8 +123,12 @@ EraseBox(s, b) ==
 
 \* DoublyLinkedSet.remove(e) for a present element
 RemoveCore(s, e) ==
-  LET s1 == EraseBox(s, s.boxOf[e])
-  IN Touch([s1 EXCEPT !.len = @ - 1, !.boxOf[e] = 0, !.abs = LsDel(@, e)], e)
+  LET b  == s.boxOf[e]
+      s1 == EraseBox(s, b)
+      s2 == [s1 EXCEPT !.len = @ - 1, !.boxOf[e] = 0, !.abs = LsDel(@, e),
+                       !.gh = CurTuple(LAMBDA c : IF Active(s, c) /\ s.cur[c].box = b
+                                                          THEN [s.gh[c] EXCEPT !.gapNb = s.nb] ELSE s.gh[c])]
+  IN Touch(s2, e)
 
 \* is box x behind the position of the parked cursor c (in c's own direction)?
 Behind(s, c, x) ==
@@ -141,11 +152,11 @@ InsOne(s, b, e) ==
                          !.ordB = IF on = 0 THEN Append(@, x) ELSE LsInsAt(@, LsPos(@, on) - 1, x),
                          !.abs = LsInsAt(q, IF b = 0 THEN 0 ELSE LsPos(q, s1.val[b]), e),
                          !.bad = @ \/ (b # 0 /\ s1.val[b] = None)]   \* insertion point must be live or root
-        s3 == [s2 EXCEPT !.gh = [c \in Cur |->
+        s3 == [s2 EXCEPT !.gh = CurTuple(LAMBDA c :
                   IF Active(s2, c)
                   THEN [s2.gh[c] EXCEPT !.touched = @ \cup {e},
                                         !.insBefore = IF Behind(s2, c, x) THEN @ \cup {x} ELSE @]
-                  ELSE s2.gh[c]]]
+                  ELSE s2.gh[c])]
     IN [s |-> s3, box |-> x]
 
 RECURSIVE InsMany(_, _, _)
@@ -176,7 +187,7 @@ StepCur(s, c) ==
      ELSE IF t < 0
      THEN [s |-> [s EXCEPT !.cur[c].ph = "loop"], out |-> "loop", y |-> 0]
      ELSE [s |-> [s EXCEPT !.cur[c] = [k EXCEPT !.ph = "parked", !.box = t],
-                           !.gh[c] = [g0 EXCEPT !.ybox = Append(@, t), !.yielded = Append(@, s.val[t])]],
+                           !.gh[c] = [g0 EXCEPT !.ybox = Append(@, t), !.yielded = Append(@, s.val[t]), !.gapNb = 0]],
            out |-> "yield", y |-> s.val[t]]
 
 \* ---- the public alphabet --------------------------------------------------------------------
@@ -226,14 +237,16 @@ IndexOK(s) ==
   /\ \A i \in 0..(s.len - 1) : GetItem(s, i) = s.abs[i + 1] /\ GetItem(s, -(i + 1)) = s.abs[Len(s.abs) - i]
   /\ GetItem(s, s.len) = -2 /\ GetItem(s, -s.len - 1) = -2
 
-\* Mono: the boxes a cursor yields strictly advance in the positional order of its direction
+\* Mono: the boxes a cursor yields strictly advance in the positional order of its direction.  Only the
+\* last two yields are compared: every earlier pair was compared in the state where it was the last
+\* (all states are checked), and boxes never change their relative order (SeqOK: the orders only grow).
 MonoOK(s) ==
   \A c \in Cur :
-    LET yb == s.gh[c].ybox IN
-    /\ \A i \in 1..(Len(yb) - 1) :
-          IF s.cur[c].dir = "f" THEN LsPos(s.ordF, yb[i]) < LsPos(s.ordF, yb[i + 1])
-                                ELSE LsPos(s.ordB, yb[i]) > LsPos(s.ordB, yb[i + 1])
-    /\ (s.cur[c].ph = "parked" => yb # <<>> /\ yb[Len(yb)] = s.cur[c].box)
+    LET yb == s.gh[c].ybox
+        n  == Len(yb)
+    IN /\ n >= 2 => IF s.cur[c].dir = "f" THEN LsPos(s.ordF, yb[n - 1]) < LsPos(s.ordF, yb[n])
+                                          ELSE LsPos(s.ordB, yb[n - 1]) > LsPos(s.ordB, yb[n])
+       /\ (s.cur[c].ph = "parked" => n >= 1 /\ yb[n] = s.cur[c].box)
 
 NoLoopOK(s) == \A c \in Cur : s.cur[c].ph # "loop"
 
@@ -292,4 +305,52 @@ Broken(s) == (IF SeqOK(s) THEN <<>> ELSE <<"Seq">>) \o (IF IndexOK(s) THEN <<>> 
           \o (IF TermOK(s) THEN <<>> ELSE <<"Term">>) \o (IF MemberOK(s) THEN <<>> ELSE <<"Member">>)
           \o (IF UntouchedOK(s) THEN <<>> ELSE <<"Untouched">>) \o (IF PassedOK(s) THEN <<>> ELSE <<"Passed">>)
           \o (IF ResumeOK(s) THEN <<>> ELSE <<"Resume">>)
+
+\* ---- which clause of C11 does an observed step outcome break? ------------------------------------
+\* Used by the trace specifications when the real code, from a state that agrees with s in every
+\* observable, answers next(cursor c) with (out, y) while the list reads lst, and that is not what
+\* StepCur(s, c) says.  "div" = no clause: the difference concerns something C11 leaves open.
+
+\* box b was put, after the parked box of c was erased, into the very gap that box left: C11 does not
+\* say on which side of a removed current node such an insertion lies
+GapAmbiguous(s, c, b) ==
+  LET k == s.cur[c]
+      p == k.box
+      i == LsPos(s.ordF, p)
+      j == LsPos(s.ordF, b)
+      lo == IF i < j THEN i ELSE j
+      hi == IF i < j THEN j ELSE i
+  IN /\ k.ph = "parked" /\ s.val[p] = None
+     /\ b > s.gh[c].gapNb
+     /\ \A x \in (lo + 1)..(hi - 1) : s.val[s.ordF[x]] = None
+
+StepClause(s, c, out, y, lst) ==
+  LET k   == s.cur[c]
+      exp == StepTarget(s, c)                      \* box the specification yields next (0 = stop)
+      by  == IF y \in Elem THEN s.boxOf[y] ELSE 0
+      passed(b) == k.ph = "done" \/ (k.ph = "parked" /\ (b = k.box \/ Behind(s, c, b)))
+      skipped == IF exp <= 0 THEN "div"
+                 ELSE IF GapAmbiguous(s, c, exp) THEN "div"
+                 ELSE IF k.ph = "new" \/ exp <= s.gh[c].nb0 THEN "untouched-skipped"
+                 ELSE "after-skipped"
+  IN IF out \notin {"yield", "stop"} THEN "error"
+     ELSE IF out = "yield" /\ (~LsIn(lst, y) \/ by = 0) THEN "member"
+     ELSE IF out = "stop" THEN skipped
+     ELSE IF by = exp THEN "seq"                  \* the expected element, but the list changed under the step
+     ELSE IF passed(by)
+          THEN (IF GapAmbiguous(s, c, by) THEN "div"
+                ELSE IF LsIn(s.gh[c].ybox, by) THEN "twice"
+                ELSE IF by \in s.gh[c].insBefore THEN "before"
+                ELSE "order")
+     ELSE skipped
+
+\* len / indexing / membership / bounds reported by the code (n, it, ni, m, oob) against the sequence q
+\* it iterates
+ObsBroken(q, n, it, ni, m, oob) ==
+     (IF n = Len(q) THEN <<>> ELSE <<"len">>)
+  \o (IF it = q THEN <<>> ELSE <<"index">>)
+  \o (IF ni = LsRev(q) THEN <<>> ELSE <<"negindex">>)
+  \o (IF oob = 1 THEN <<>> ELSE <<"oob">>)
+  \o (IF \A x \in DOMAIN m : (m[x] = 1) <=> LsIn(q, x) THEN <<>> ELSE <<"member">>)
+  \o (IF \A i, j \in DOMAIN q : i # j => q[i] # q[j] THEN <<>> ELSE <<"dup">>)
 =============================================================================
